@@ -243,6 +243,8 @@ def kfC08 (op : DoOp) : Option String :=
 /-- C12: over RTU a reply whose CRC does not match is never a value and never a device exception -/
 def judgeC12 (op : DoOp) (out : String) : Expect :=
   if op.kind == .tcp || op.nilReq || op.notConnected || op.writeFails then .free else
+  if (out.splitOn "CORRUPTED-REPEAT-OF-THE-LAST-REPLY-ACCEPTED").length > 1 then
+    .pred false "a reply with a flipped payload bit (and the trailer of the reply before it) was returned as a response" else
   let got := dataOf op.script
   if got.length < 2 || endsWithSpecCrc got then .noPanic else
   -- a CRC-consistent frame that is complete at a read boundary may legitimately be accepted there
